@@ -43,6 +43,9 @@ def ev_scenarios():
                             "T 1 yield", "T 1 yield", "T 1 ev_post 2", "T 1 ev_post 2"]
     # the owner's event count drops to zero and rises again: the wake-up path is set up afresh
     S["reg-cycle"] = ["O ev 1", "O ev 2", "S ev_reg 1", "S ev_unreg 1", "S ev_reg 2", "S spawn 1", "T 1 ev_post 2", "T 1 ev_post 2"]
+    # the last event of the process goes away in one thread while another thread registers its first one
+    S["rxoff-race"] = ["O ev 1", "O ev 2", "S ev_reg 1", "S spawn 1", "T 1 iv_init", "T 1 ev_reg 2", "T 1 set_flag 2", "T 1 iv_main",
+                       "T 1 iv_deinit", "S ev_unreg 1", "S wait_flag 2", "S ev_post 2", "R ev 2 0 1 ev_unreg 2"]
     # a second owner thread with its own loop, posted to by the main thread
     S["second-owner"] = ["O ev 1", "O ev 2", "S ev_reg 1", "S spawn 1", "T 1 iv_init", "T 1 ev_reg 2", "T 1 set_flag 2", "T 1 iv_main",
                          "T 1 iv_deinit", "S wait_flag 2", "S ev_post 2", "R ev 2 0 1 ev_unreg 2"]
@@ -141,6 +144,9 @@ def raw_scenarios():
                    "R raw 1 0 1 sigpost 10 1 0", "R raw 2 0 1 childpost 1"]
     S["unreg"] = ["O raw 1", "O raw 2", "S raw_reg 1", "S raw_reg 2", "S spawn 1", "S raw_post 2", "T 1 raw_post 1", "T 1 raw_post 1",
                   "R raw 2 0 1 raw_unreg 1", "R raw 2 0 1 raw_reg 1", "R raw 1 0 1 raw_post 2"]
+    # the raw event sits behind a write-only descriptor in the back end's tables; that descriptor goes away
+    S["behind-fd"] = ["O fd 1 pw", "O raw 1", "S fd_reg 1 0 1 0", "S raw_reg 1", "S spawn 1", "S fd_unreg 1", "T 1 raw_post 1",
+                      "T 1 yield", "T 1 raw_post 1"]
     # a burst larger than a pipe buffer posted by the owner itself (nobody drains meanwhile): never blocks
     S["burst-owner"] = ["O raw 1", "O raw 2", "S raw_reg 1", "S raw_reg 2", "S spawn 1", "S raw_burst 1 70000", "T 1 raw_post 2",
                         "R raw 2 0 1 raw_burst 1 70000", "R raw 2 0 1 raw_post 2"]
